@@ -517,7 +517,7 @@ class CompositeKeystoneAperture:
             yy = self.center_yy
             basis = list(center_basis(center_orders, x=xx, y=yy, **center_basis_kwargs))  # NOQA - length
             basis = np.asarray(basis)
-            grids.append((rr, tt))
+            grids.append((xx, yy))
             bases.append(basis)
 
         # now do each segment
